@@ -284,11 +284,11 @@ class C13(Profile):
     weights = {"create_block": 2, "create_group": 2, "create_array": 2, "create_tag": 2, "create_mtag": 1,
                "create_source": 9, "create_section": 9, "set_metadata": 7, "link_append": 7, "del_metadata": 1,
                "link_remove": 1, "delete": 2, "set_attr": 2, "tree_find": 10, "tree_parent": 10,
-               "tree_referring": 7, "restart": 3}
+               "tree_referring": 7, "restart": 3, "tree_copy_find": 1}
     owned = ("tree_find", "tree_parent", "tree_referring")
     reopen_introspect = False
     never_off = ("restart", "create_section", "create_source", "tree_find", "tree_parent", "tree_referring")
-    late_ops = ("delete", "link_remove", "del_metadata")
+    late_ops = ("delete", "link_remove", "del_metadata", "tree_copy_find")
     build_fraction = 0.5
 
     def tune_knobs(self, k, rng):
